@@ -57,6 +57,9 @@ def run_one(pid, seed, idx, tier, replay=None, keep_choices=False):
         res['choices'] = ch.values()
         res['labels'] = [l for l, _ in ch.record]
         res['sample'] = W.canon(w.sample)
+        keep = ('fault', 'pool.create', 'pool.worker', 'pool.dispatch', 'pool.done', 'op', 'call', 'rng.history',
+                'violation')
+        res['trace'] = [list(e) for e in w.events if e[3] in keep][:300]
     return res
 
 
@@ -139,7 +142,7 @@ def shrink(args):
     faulthandler.cancel_dump_traceback_later()
     ok = _has(final, key) and _has(again, key) and final['digest'] == again['digest']
     return {'ok': ok, 'runs': runs[0], 'choices': final['choices'], 'labels': final['labels'],
-            'digest': final['digest'], 'viol': final['viol'], 'sample': final['sample'],
+            'digest': final['digest'], 'viol': final['viol'], 'sample': final['sample'], 'trace': final.get('trace'),
             'from_len': len(choices), 'to_len': len(final['choices'])}
 
 
